@@ -14,6 +14,7 @@ from vlib.core import fstr
 
 from .graph_driver import Term
 from .graph_driver import POISON
+from .graph_driver import SPEC_KIND
 from .logprob_driver import ProgramRun, gen_program, model_family
 
 
@@ -23,7 +24,9 @@ def _snap(run, state):
     raw_val, raw_outd = [], []
     for i in range(1, run.n + 1):
         ns = state[f"n{i}"]
-        raw_val.append("-" if ns.value is None else str(ns.value))
+        # (a transient node stores nothing; for any other node None is a value like any other)
+        transient = SPEC_KIND[run.plan[i - 1]["kind"]] in ("t", "p")
+        raw_val.append("-" if ns.value is None and transient else str(ns.value))
         raw_outd.append(bool(ns.outdated))
     return raw_val, raw_outd
 
@@ -84,7 +87,8 @@ def symbolic_trace(rng, ncalls=10):
             keys = rng.sample(vals, rng.randint(0, len(vals)))
             pos, pos_log = {}, []
             for k in keys:
-                x = Term(rng.choice("abc") + str(rng.randint(0, 4)))
+                # (None is a legal value of a node - an optional input - and a value like any other for the interface)
+                x = None if rng.random() < 0.12 else Term(rng.choice("abc") + str(rng.randint(0, 4)))
                 name = f"n{k}"
                 if k in run.vars and rng.random() < 0.5:
                     name = f"var{k}"
@@ -112,7 +116,7 @@ def symbolic_trace(rng, ncalls=10):
             direct_model.state = st
             direct_model.auto_update = False
             for k, x in pos_log:
-                direct_model.nodes[f"n{k}"].value = Term(x)
+                direct_model.nodes[f"n{k}"].value = None if x == "None" else Term(x)
             direct_model.update()
             rv, ro = _snap(run, ret)
             eff_val, eff_outd = _eff(run, scratch, ret)
@@ -137,7 +141,7 @@ def symbolic_trace(rng, ncalls=10):
                        "values": [str(got[f"n{k}"]) if got[f"n{k}"] is not None else vals_eff[k - 1] for k in keys]})
         elif vals:
             k = rng.choice(vals)
-            user.nodes[f"n{k}"].value = Term("u" + str(rng.randint(0, 9)))
+            user.nodes[f"n{k}"].value = None if rng.random() < 0.1 else Term("u" + str(rng.randint(0, 9)))
             ev.append({"ev": "user_assign", "n": k})
             if rng.random() < 0.5:
                 user.update()
@@ -209,10 +213,29 @@ def numeric_trace(rng, family):
 # ---- dict / dataclass / named tuple -------------------------------------------------------------
 
 @dataclass
+class Hyper:
+    """A structured value held in one field of a model state (a nested dataclass)."""
+    a: float
+    b: float
+
+
+def _desc(v):
+    """Canonical description of a field value: type and contents (a nested dataclass must come back as what it is)."""
+    if isinstance(v, Hyper):
+        return f"Hyper(a={float(v.a)!r},b={float(v.b)!r})"
+    if isinstance(v, dict):
+        return "dict{" + ",".join(f"{k}:{_desc(x)}" for k, x in sorted(v.items())) + "}"
+    if isinstance(v, (list, tuple)):
+        return type(v).__name__ + "[" + ",".join(_desc(x) for x in v) + "]"
+    return repr(float(v))
+
+
+@dataclass
 class DState:
     x: float
     loc: float
     scale: float
+    hyper: object
     cache: float = field(init=False, default=0.0)     # not an init argument
 
     def __post_init__(self):
@@ -223,6 +246,7 @@ class NState(NamedTuple):
     x: float
     loc: float
     scale: float
+    hyper: object
 
 
 def plain_trace(rng):
@@ -233,36 +257,42 @@ def plain_trace(rng):
     ev = []
     for kind in ("dict", "dataclass", "namedtuple"):
         for _ in range(4):
-            vals = {"x": rng.uniform(-2, 2), "loc": rng.uniform(-1, 1), "scale": rng.uniform(0.5, 2)}
+            mk_hyper = lambda: rng.choice([Hyper(rng.uniform(0, 1), rng.uniform(1, 2)), (Hyper(0.5, rng.uniform(1, 2)), 3.0),
+                                           {"h": Hyper(rng.uniform(0, 1), 1.0)}])
+            vals = {"x": rng.uniform(-2, 2), "loc": rng.uniform(-1, 1), "scale": rng.uniform(0.5, 2), "hyper": mk_hyper()}
             if kind == "dict":
                 iface, st = gs.DictInterface(lp), dict(vals)
-                fields = ["x", "loc", "scale"]
+                fields = ["x", "loc", "scale", "hyper"]
             elif kind == "dataclass":
                 iface, st = gs.DataclassInterface(lp), DState(**vals)
                 st.cache = rng.uniform(5, 9)              # current value differs from what __post_init__ sets
-                fields = ["x", "loc", "scale", "cache"]
+                fields = ["x", "loc", "scale", "hyper", "cache"]
             else:
                 iface, st = gs.NamedTupleInterface(lp), NState(**vals)
-                fields = ["x", "loc", "scale"]
+                fields = ["x", "loc", "scale", "hyper"]
             get = (lambda s, k: s[k]) if kind == "dict" else (lambda s, k: getattr(s, k))
-            before = {k: repr(float(get(st, k))) for k in fields}
+            before = {k: _desc(get(st, k)) for k in fields}
             keys = rng.sample(fields if kind != "namedtuple" else fields, rng.randint(1, len(fields)))
-            pos = {k: rng.uniform(-3, 3) if k != "scale" else rng.uniform(0.5, 3) for k in keys}
-            e = {"ev": "plain", "kind": kind, "keys": keys, "pos": {k: repr(float(v)) for k, v in pos.items()},
+            pos = {k: mk_hyper() if k == "hyper" else rng.uniform(-3, 3) if k != "scale" else rng.uniform(0.5, 3) for k in keys}
+            e = {"ev": "plain", "kind": kind, "keys": keys, "pos": {k: _desc(v) for k, v in pos.items()},
                  "before": before}
             try:
                 ret = iface.update_state(pos, st)
-                e["ret"] = {k: repr(float(get(ret, k))) for k in fields}
+                e["ret"] = {k: _desc(get(ret, k)) for k in fields}
                 ext = iface.extract_position(keys, ret)
-                e["extracted"] = {k: repr(float(ext[k])) for k in keys}
+                e["extracted"] = {k: _desc(ext[k]) for k in keys}
                 e["lp"] = repr(float(iface.log_prob(ret)))
                 exp = dict(vals, **{k: v for k, v in pos.items()})
+                # (a second extraction from the *input* state: fields the update did not touch)
+                ext0 = iface.extract_position(fields, st)
+                e["extracted_all"] = {k: _desc(ext0[k]) for k in fields}
                 e["expected_lp"] = repr(float(-0.5 * ((exp["x"] - exp["loc"]) / exp["scale"]) ** 2))
             except Exception as ex:  # noqa: BLE001
                 e["ret"] = {k: "raised:" + type(ex).__name__ for k in fields}
                 e["extracted"] = {k: "raised" for k in keys}
+                e["extracted_all"] = {k: "raised" for k in fields}
                 e["lp"], e["expected_lp"] = "raised", "ok"
-            e["after"] = {k: repr(float(get(st, k))) for k in fields}
+            e["after"] = {k: _desc(get(st, k)) for k in fields}
             ev.append(e)
     hdr = {"n": 1, "kind": ["v"], "inp": [[]], "init": ["-"], "family": "plain"}
     return {"hdr": hdr, "ev": ev}
